@@ -98,6 +98,29 @@ func (s *sys) apply(ev string) applied {
 	case "V":
 		a.isNetMsg = true
 		a.result, a.allInvalid = s.applyVote(parts[1:])
+	case "VZ":
+		// A vote message for height 0 (below the initial height): before the first commit the mirror's committing
+		// view still is the zero view of height 0 / round 0 with an empty validator set.
+		a.isNetMsg = true
+		a.allInvalid = true
+		w := s.w
+		pkh := ""
+		if len(parts) > 2 && parts[2] == "pkh" {
+			pkh = string(w.VS(initialH).PubKeyHash)
+		}
+		sg := w.voteSig(parts[1][0], initialH, 0, "", byzIdx)
+		proofs := map[string][]gcrypto.SparseSignature{string(w.header("A", initialH).Hash): {sg}}
+		if parts[1] == "p" {
+			msg := tmconsensus.PrevoteSparseProof{Height: 0, Round: 0, PubKeyHash: pkh, Proofs: proofs}
+			a.result = s.call("HandlePrevoteProofs", func(ctx context.Context) string {
+				return s.handler().HandlePrevoteProofs(ctx, msg).String()
+			})
+		} else {
+			msg := tmconsensus.PrecommitSparseProof{Height: 0, Round: 0, PubKeyHash: pkh, Proofs: proofs}
+			a.result = s.call("HandlePrecommitProofs", func(ctx context.Context) string {
+				return s.handler().HandlePrecommitProofs(ctx, msg).String()
+			})
+		}
 	case "RP":
 		a.result = s.applyReplay(parts[1])
 	case "FE":
